@@ -235,16 +235,26 @@ pub enum Mutation {
     /// Option: None -> Some(default or copy of sibling `from`)
     ToSome { path: Vec<usize>, from: Option<usize> },
     /// Seq / Bytes: remove last `k` elements
-    Shorten { path: Vec<usize>, k: usize },
+    Shorten { path: Vec<usize>, cnt: usize },
     /// Seq / Bytes: duplicate the last element `k` times
-    Lengthen { path: Vec<usize>, k: usize },
+    Lengthen { path: Vec<usize>, cnt: usize },
     /// Seq / Bytes: make empty
     Clear { path: Vec<usize> },
     /// Seq: swap two elements
     Swap { path: Vec<usize>, i: usize, j: usize },
+    /// Seq at `path`: xor bit `bit` into every element (u128 / byte arrays)
+    XorBitEach { path: Vec<usize>, bit: u32 },
+    /// Vec<Option<_>>: the first Some becomes None
+    ToNoneAny,
+    /// Vec<Option<_>>: every Some becomes None
+    ToNoneAll,
+    /// Vec<Option<_>>: the first None becomes Some (copy of the first Some, else default)
+    ToSomeAny,
+    /// Vec<Option<u128>>: xor bit `bit` into the first Some value
+    XorFirstSome { bit: u32 },
     /// replace the node by the same-position node of the message of phase
     /// instance `k` sent to recipient `to` earlier by this sender (replay)
-    CopyFrom { path: Vec<usize>, to: usize, k: usize },
+    CopyFrom { path: Vec<usize>, rcpt: usize, inst: usize },
 }
 
 #[derive(Deserialize, Serialize, Clone, Debug)]
@@ -316,6 +326,26 @@ pub fn apply_tree(
                 _ => return None,
             }
         }
+        Mutation::XorBitEach { path, bit } => {
+            let (nd, _) = node_mut(&mut v, sch, path)?;
+            let V::Seq(items) = nd else { return None };
+            if items.is_empty() {
+                return None;
+            }
+            for it in items.iter_mut() {
+                match it {
+                    V::U128(x) => *x ^= 1u128 << (bit % 128),
+                    V::Arr(b) | V::Bytes(b) => {
+                        if b.is_empty() {
+                            return None;
+                        }
+                        let i = (*bit as usize / 8) % b.len();
+                        b[i] ^= 1 << (bit % 8);
+                    }
+                    _ => return None,
+                }
+            }
+        }
         Mutation::XorVal { path, limbs } => {
             let mut x: u128 = 0;
             for (i, l) in limbs.iter().enumerate().take(8) {
@@ -379,7 +409,7 @@ pub fn apply_tree(
                 _ => return None,
             }
         }
-        Mutation::Shorten { path, k } => {
+        Mutation::Shorten { path, cnt: k } => {
             let (nd, _) = node_mut(&mut v, sch, path)?;
             match nd {
                 V::Seq(items) => {
@@ -397,7 +427,7 @@ pub fn apply_tree(
                 _ => return None,
             }
         }
-        Mutation::Lengthen { path, k } => {
+        Mutation::Lengthen { path, cnt: k } => {
             let (nd, s) = node_mut(&mut v, sch, path)?;
             match nd {
                 V::Seq(items) => {
@@ -438,7 +468,47 @@ pub fn apply_tree(
                 _ => return None,
             }
         }
-        Mutation::CopyFrom { path, to, k } => {
+        Mutation::ToNoneAny | Mutation::ToNoneAll | Mutation::ToSomeAny | Mutation::XorFirstSome { .. } => {
+            let inner = match sch {
+                Sch::Seq(i) => match &**i {
+                    Sch::Opt(x) => (**x).clone(),
+                    _ => return None,
+                },
+                _ => return None,
+            };
+            let V::Seq(items) = &mut v else { return None };
+            match m {
+                Mutation::ToNoneAny => {
+                    let i = items.iter().position(|x| matches!(x, V::Opt(Some(_))))?;
+                    items[i] = V::Opt(None);
+                }
+                Mutation::ToNoneAll => {
+                    if !items.iter().any(|x| matches!(x, V::Opt(Some(_)))) {
+                        return None;
+                    }
+                    for x in items.iter_mut() {
+                        *x = V::Opt(None);
+                    }
+                }
+                Mutation::ToSomeAny => {
+                    let i = items.iter().position(|x| matches!(x, V::Opt(None)))?;
+                    let src = items.iter().find(|x| matches!(x, V::Opt(Some(_)))).cloned();
+                    items[i] = src.unwrap_or_else(|| V::Opt(Some(Box::new(default_of(&inner)))));
+                }
+                Mutation::XorFirstSome { bit } => {
+                    let i = items.iter().position(|x| matches!(x, V::Opt(Some(_))))?;
+                    match &mut items[i] {
+                        V::Opt(Some(b)) => match &mut **b {
+                            V::U128(x) => *x ^= 1u128 << (bit % 128),
+                            _ => return None,
+                        },
+                        _ => return None,
+                    }
+                }
+                _ => unreachable!(),
+            }
+        }
+        Mutation::CopyFrom { path, rcpt: to, inst: k } => {
             let other = history(*to, *k)?;
             let mut ov = decode_all(sch, &other)?;
             let (src, _) = node_mut(&mut ov, sch, path)?;
